@@ -1,7 +1,7 @@
 (* C13 — HTTP server: reload restarts iff config changed; never silently stale.
    This file contains only statements; every proof is `exact <lemma>`. *)
 From Coq Require Import List NArith ZArith Bool Permutation.
-From GS Require Import LTS HttpCfg HttpServer HttpCfgProofs HttpInv HttpInvStep2 HttpProps.
+From GS Require Import LTS HttpCfg HttpServer HttpCfgProofs HttpInv HttpInvStep2 HttpProps HttpProgress.
 Import ListNotations.
 
 (* ---- pure part: Config.Equal (all pairs, no bound on the number of routes or string lengths) ---- *)
@@ -95,17 +95,17 @@ Theorem C13_visible : forall validated mux_ok s l s' i,
   ((l = LUnchanged \/ l = LFinish) /\ (fsm_st s' = FRunning \/ fsm_st s' = FError)).
 Proof. exact visible_step. Qed.
 
-(* Run()/Stop() still terminate: in every reachable state (including after failed reloads), once Stop or
-   cancel has been requested, either Run has returned or some step other than a new call or an observation
-   is enabled: an internal step, or the return of the callback / of the http.Server.Shutdown in flight.
-   (No stuck state; liveness under fairness is not expressed.) *)
+(* Run()/Stop() still terminate: in EVERY reachable state - no hypothesis on the environment: after callback
+   errors, nil results, failed Shutdowns, foreign binders and unbindable addresses at any position - once
+   Stop or cancel has been requested, either Run has returned or some step other than a new call or an
+   observation is enabled: an internal step, or the return of the callback / of the http.Server.Shutdown in
+   flight.  (No stuck state; liveness under fairness is not expressed.) *)
 Theorem C13_terminates : forall validated mux_ok c0 ls s,
-  no_foreign ls ->
   run (step validated mux_ok) (init c0) ls = Some s ->
   crashed s = false -> rpc s <> RNew ->
   (cancelled s || stop_req s = true) ->
   run_returned s = true \/ exists l, progress_label l = true /\ step validated mux_ok s l <> None.
-Proof. exact no_stuck. Qed.
+Proof. exact no_stuck0. Qed.
 
 Print Assumptions C13_equal_iff.
 Print Assumptions C13_equal_iff_code.
